@@ -9,6 +9,7 @@ CONSTANTS
 INVARIANT InterIsRef
 INVARIANT DiffIsRef
 INVARIANT UpdRecIsRef
+INVARIANT InterKeepsClass
 INVARIANT NestedIsRef
 PROPERTY ArgsUnchanged
 INVARIANT InterGlb
